@@ -212,6 +212,8 @@ func runC15(c *kit.Ctx) {
 	}
 
 	// ---- R2 ---------------------------------------------------------------
+	decompressorRejectsOnlyMalformed(c)
+
 	c.StartRule("R2", "every reader error is checked and returned", 5)
 	sendPathSharesNoMemory(c)
 	for _, fn := range nonNilFuncs(dec, readU) {
